@@ -58,13 +58,18 @@ def parseCi (impl : String) : Option (Bool × Nat) :=
 different verdicts or counts — `IntegritySpec.kfC04`, the complement of the hypothesis of `C04_reference_partial` -/
 def kfInteg (bs : List Nat) : String := if Fit.IntegritySpec.kfC04 bs then "KF-C04-1" else "-"
 
-/-- the `eo=<n>` tag of the harness: "these bytes ARE the output of the real encoder for a chain of `n` sequences, all
+/-- the `eo=<n> el=<length>` tag of the harness: "these bytes ARE the output of the real encoder for a chain of `n` sequences, all
 with 14-byte headers" (the generator knows). On a tagged operation the predicate the theorems assume of encoder output
 must hold — for `n = 1` the very `IsEncoderOutput14` of `C04_burst` / `C04_truncation`, proved of the encoder model by
 `C04_encoder_output` — and its failure is a property failure, not an abstention. -/
 def encoderTagOK (a : IntegArgs) : Option Bool :=
-  (a.get "eo").map fun n =>
-    if n = 1 then decide (Fit.IntegritySpec.IsEncoderOutput14 a.bytes) else Fit.IntegritySpec.isEncoderChain14 a.bytes n
+  -- the tag names the length of the bytes it speaks about (`el=<len>`): a line whose bytes were cut down by the
+  -- shrinker of the framework is no longer a tagged line (the replay of a `fail:not-encoder-output` stays the real output)
+  match a.get "eo", a.get "el" with
+  | some n, some l =>
+    if l ≠ a.bytes.length then none
+    else some (if n = 1 then decide (Fit.IntegritySpec.IsEncoderOutput14 a.bytes) else Fit.IntegritySpec.isEncoderChain14 a.bytes n)
+  | _, _ => none
 
 /-- `integ [chk=0|1] [rb=<n>] b:<hex>`: outcome of `CheckIntegrity` and of the decode loop -/
 def hInteg : Handler := fun r =>
@@ -74,7 +79,9 @@ def hInteg : Handler := fun r =>
     match r.mode with
     | .model => s!"ci={showResult (checkIntegrity a.bytes)} dec={showDResult (decodeAll a.chk a.bytes)}"
     | .spec => "n/a"
-    | .kf => kfInteg a.bytes
+    -- a tagged encoder output that is not "encoder output" is never the known finding (else `fail:not-encoder-output`
+    -- would be attributed to KF-C04-1 whenever the broken output happens to lie in its class, e.g. a zero header CRC)
+    | .kf => if encoderTagOK a == some false then "-" else kfInteg a.bytes
     | .prop =>
       if encoderTagOK a == some false then "fail:not-encoder-output" else
       -- the property: verdict and count of valid leading sequences equal the reference's
